@@ -1,4 +1,5 @@
 import SwcVerif.Proofs.Invariance
+import SwcVerif.Refine.NodeFeat2
 /-! # C11 for the GENERATED measures (T33 `invar`)
 
 The theorems of `Props/C11.lean` are about the hand-written feature models.  Here the same invariances are proved for the definitions the
@@ -294,6 +295,68 @@ theorem generated_tree_length_renumbered (norm : List K → K) (σ : Nat → Nat
     rw [hx (j + 1) hin, hp (j + 1) (by omega) hin, hx _ hp1]
     congr 2
     omega
+open RefineNf2 in
+/-- **the angles between branches do not depend on the length unit** (the property's scaling clause for the GENERATED, repaired
+`BranchFeatures.calc_angle`): when every coordinate row is multiplied by `s > 0`, the generated angle matrix is unchanged - for every `norm`
+with `norm (s·v) = s · norm v` that vanishes only together with the dot products (`‖v‖‖w‖ = 0 → v·w = 0`: the Euclidean norm), every `acos`,
+whatever `eps` is handed in.  (With the absolute `eps` the unrepaired source added to `‖v‖‖w‖` this statement is false.) -/
+theorem generated_branch_angle_scale (F : Py.Fld K) (hF : ∀ a b : K, F.div a b = a / b) (s : K) (hs : 0 < s) (norm : List K → K)
+    (hnorm : ∀ v : List K, norm (v.map (s * ·)) = s * norm v)
+    (hnz : ∀ v w : List K, norm v * norm w = 0 → RefineNf2.dotK v w = 0) (acos : K → K)
+    (axyz : List (List K)) (d : Nat) (brs : List (List Int)) (eps eps' : K) (hg : ∀ b ∈ brs, GoodBr axyz d b) :
+    nf_calc_angle F norm acos (axyz.map (List.map (s * ·))) brs eps' = nf_calc_angle F norm acos axyz brs eps := by
+  have hrow : ∀ i : Int, RefineNf.row (axyz.map (List.map (s * ·))) i = (RefineNf.row axyz i).map (s * ·) := by
+    intro i
+    simp only [RefineNf.row, List.getD_eq_getElem?_getD, List.getElem?_map]
+    cases axyz[i.toNat]? <;> simp
+  have hbv : ∀ b, bvec (axyz.map (List.map (s * ·))) b = (bvec axyz b).map (s * ·) := by
+    intro b
+    simp [bvec, RefineNf.vec, hrow, List.zipWith_map, List.map_zipWith, mul_sub]
+  have hg' : ∀ b ∈ brs, GoodBr (axyz.map (List.map (s * ·))) d b := by
+    intro b hb
+    obtain ⟨h0, h1, h2, h3, h4⟩ := hg b hb
+    refine ⟨h0, ?_, ?_, ?_, ?_⟩
+    · simpa [RefineNf.Valid] using h1
+    · simpa [RefineNf.Valid] using h2
+    · simpa [hrow] using h3
+    · simpa [hrow] using h4
+  have hsum : ∀ l : List K, Py.Nf.sumK l = l.sum := by
+    intro l; simp [Py.Nf.sumK, List.sum_eq_foldl]
+  have hdot : ∀ a b : List K, RefineNf2.dotK (a.map (s * ·)) (b.map (s * ·)) = s * s * RefineNf2.dotK a b := by
+    intro a b
+    simp only [RefineNf2.dotK, hsum, List.zipWith_map]
+    have hsm : ∀ (c : K) (l : List K), (l.map (c * ·)).sum = c * l.sum := by
+      intro c l
+      induction l with
+      | nil => simp
+      | cons x xs ih => simp [ih, mul_add]
+    rw [← hsm, List.map_zipWith]
+    congr 2
+    funext x y
+    ring
+  have hss : 0 < s * s := mul_pos hs hs
+  rw [calc_angle_refines F norm acos _ d brs eps' one_pos hg', calc_angle_refines F norm acos axyz d brs eps one_pos hg]
+  congr 1
+  apply List.map_congr_left; intro bi _
+  apply List.map_congr_left; intro bj _
+  congr 2
+  have hN : angNd norm (axyz.map (List.map (s * ·))) bi bj = s * s * angNd norm axyz bi bj := by
+    simp only [angNd, hsum, hbv, hnorm, List.sum_singleton]; ring
+  simp only [angDen, angDeg, hN, hbv, hdot, hF]
+  by_cases h0 : angNd norm axyz bi bj = 0
+  · have hd0 : RefineNf2.dotK (bvec axyz bi) (bvec axyz bj) = 0 := hnz _ _ (by simpa [angNd, hsum] using h0)
+    simp [h0, hd0]
+  · have hne : ¬ (¬ angNd norm axyz bi bj < 0 ∧ ¬ 0 < angNd norm axyz bi bj) := by
+      intro h; exact h0 (le_antisymm (not_lt.mp h.2) (not_lt.mp h.1))
+    have hne' : ¬ (¬ s * s * angNd norm axyz bi bj < 0 ∧ ¬ 0 < s * s * angNd norm axyz bi bj) := by
+      intro h
+      apply hne
+      constructor
+      · intro hlt; exact h.1 (mul_neg_of_pos_of_neg hss hlt)
+      · intro hgt; exact h.2 (mul_pos hss hgt)
+    simp only [Bool.not_eq_true', Bool.or_eq_false_iff, decide_eq_false_iff_not, hne, hne', if_false]
+    exact mul_div_mul_left _ _ (ne_of_gt hss)
+
 end field
 
 /-! non-vacuity, kernel-evaluated at `K = Rat` with `ψ = id` (squared lengths): the generated translation by (1, 2, 3) and the generated
